@@ -56,6 +56,14 @@ CLAIMS = {
   text="(A) TLC model-checks the implementation-shaped DagWalker machine (explicit stack, memo, expand/compute phases, failure path, one-shot memo) for every rooted DAG shape (4 nodes quick / 5 thorough, fan-out <= 2): VisitOnce, PushBound, ChildrenFirst, FailureTransparent and termination (liveness under weak fairness); the pre-fix configuration must yield the known counterexample (vacuity guard). (B/C) the same shapes, instantiated with every nestable operator family, are fed to the real walkers whose per-instance function tables are wrapped from outside; TLC validates every logged callback sequence (each node at most K times, children first, only and all reachable nodes). Scaling families beyond TLC's reach (20,000-deep chains, 2^60-tree diamonds) are run through construction, simplify, substitute, oracles, get_logic, rewriters, DAG printing and re-parsing and validated for success and callbacks <= K * distinct nodes.",
   note="the absolute nesting depth reached is an observation on the interpreter; the algorithmic claims (visit-once, no per-level recursion) are model-checked and trace-validated. Parser work is measured by consumed text (it has no walker).",
   tech=TECH + "design model checking of the walker machine over all DAG shapes + trace validation of real callback sequences and scaling runs", ref="DESIGN.md 3 C20"),
+ "C14": dict(
+  text="Abstract spec (Environment.tla): every query/transformation is a pure function of its arguments; the state kept between calls is unobservable. (A) MC_Walker checks memo reuse across consecutive walks on a long-lived walker over every DAG shape. (B/C) TLC enumerates call histories (all sequences of length <= 2 over a 20-call alphabet, simulated length 8); each is run in one environment followed by a 20-probe suite, the suite alone in a fresh twin; TLC validates pairwise equality up to commutative-argument order and a bijection of fresh names (ACEq / Bijections in TLA+), and that repeating a formula-valued call returns the very same object.",
+  note="harness/envcalls.py call catalogue (4 formulas sharing sub-DAGs); raw Theory objects are probed to expose aliasing of memoised values",
+  tech=TECH + "TLC-enumerated call histories replayed against twin environments, results validated by TLC up to AC / fresh-name equality", ref="DESIGN.md 3 C14"),
+ "C15": dict(
+  text="(A) MC_Walker: FailureTransparent over every DAG shape and failing node in the implementation-shaped walker machine (the configuration without the clean-up yields the counterexample of the repaired defect). (B/C) TLC enumerates fault histories (all sequences of length <= 3 over 5 good + 16 failing calls with >= 1 failing call, simulated length 7); each runs on environment A, the history minus the failing calls on twin B, followed by a 20-probe suite incl. reused parser / substituter / simplifier objects; TLC validates that A and B answer every probe identically (up to AC order / fresh names).",
+  note="failing-call classes of harness/envcalls.py: ill-typed construction, sort-breaking substitution at 5 depths, exception inside a walk, unsupported node/operator, undefined symbol, malformed SMT-LIB, HR syntax error",
+  tech=TECH + "TLC-enumerated fault histories replayed on twin environments, probe results validated by TLC", ref="DESIGN.md 3 C15"),
 }
 NA_REASON = "check under construction in this round (planned with the same TLA+/TLC technique, see DESIGN.md)"
 
